@@ -251,13 +251,14 @@ func TestVerifC13SelectionCase(t *testing.T) {
 
 		// (R) the statement with case-insensitive names
 		trimmed := strings.TrimRight(c.SNI, ".")
-		if trimmed == "" {
-			// absent SNI / only dots: an empty name against contexts with an empty server_name is the degenerate case
+		if trimmed == "" && c.SNI != "" {
+			// only dots: whether such a server_name extension counts as "no SNI" is not decided by the statement
 			p.Count("empty_name_not_compared", 1)
 			return
 		}
+		// an absent SNI matches no name: ALPN rule, then first ready context (every context of this part has a server_name)
 		for _, l := range strings.Split(trimmed, ".") {
-			if l == "" {
+			if l == "" && c.SNI != "" {
 				p.Count("empty_label_not_compared", 1)
 				return
 			}
@@ -302,5 +303,5 @@ func TestVerifC13SelectionCase(t *testing.T) {
 	p.Note("sni_alphabet", shown)
 	p.End(complete, fmt.Sprintf("every ordered list of 1..%d distinct contexts out of %d %v x %d SNI spellings (18 lower-case forms - exact, wildcard with 1 and 2 extra labels, bare domain, non-matching, trailing dot - each with upper case in the left-most label only / a middle label / the top-level label / everywhere / mixed; plus absent, several trailing dots, only dots, empty labels, IP literals, a 245-byte name, '*' in the SNI, single label) x client ALPN %v",
 		maxLen, len(c13CaseCtxs), labels, len(alphabet), alpns),
-		"cartesian product on listeners built by NewTLSServerContextManager from inline PEM contexts, observed by the leaf certificate GetConfigForClient returns; (M) every spelling must select what its lower-case spelling selects; (R) the statement with names compared case-insensitively on both sides, trailing dots and wildcard depth against the union of readings; names that are empty without their dots or contain empty labels are executed and checked by (M) only")
+		"cartesian product on listeners built by NewTLSServerContextManager from inline PEM contexts, observed by the leaf certificate GetConfigForClient returns; (M) every spelling must select what its lower-case spelling selects; (R) the statement with names compared case-insensitively on both sides, trailing dots and wildcard depth against the union of readings; an absent SNI matches no name (ALPN rule, then first ready context); names made of dots only or containing empty labels are executed and checked by (M) only")
 }
